@@ -159,62 +159,313 @@ func runC20(c *Ctx, r *Rec) {
 }
 
 func checkCtorSkeleton(c *Ctx, r *Rec, info *types.Info, fd *ast.FuncDecl, kind string, direct map[string]bool) {
-	// kind variables: locals assigned in the argument type switch
+	// kind variables: function-level locals that receive an argument inside the loop over the
+	// variadic parameter: assigned there, or handed by address to a helper that classifies
+	construct := c.fdName(fd)
 	kindVars := map[types.Object]bool{}
 	var notation types.Object
-	ast.Inspect(fd.Body, func(x ast.Node) bool {
-		if ts, ok := x.(*ast.TypeSwitchStmt); ok {
-			ast.Inspect(ts, func(y ast.Node) bool {
-				if as, ok := y.(*ast.AssignStmt); ok && as.Tok == token.ASSIGN && len(as.Lhs) == 1 {
-					if o := identObj(info, as.Lhs[0]); o != nil {
-						if n := derefNamed(o.Type()); n != nil && n.Obj().Name() == "NotationLike" {
-							notation = o
-						} else {
-							kindVars[o] = true
+	var variadic types.Object
+	if ps := paramObjs(info, fd); len(ps) > 0 {
+		variadic = ps[len(ps)-1]
+	}
+	var argLoop ast.Stmt
+	for _, st := range fd.Body.List {
+		switch l := st.(type) {
+		case *ast.RangeStmt:
+			if variadic != nil && nodeHas(l.X, func(x ast.Node) bool { id, ok := x.(*ast.Ident); return ok && info.Uses[id] == variadic }) {
+				argLoop = l
+			}
+		case *ast.ForStmt:
+			if variadic != nil && l.Cond != nil && nodeHas(l.Cond, func(x ast.Node) bool { id, ok := x.(*ast.Ident); return ok && info.Uses[id] == variadic }) {
+				argLoop = l
+			}
+		}
+	}
+	if argLoop != nil {
+		note := func(o types.Object) {
+			if o == nil || (o.Pos() >= argLoop.Pos() && o.Pos() <= argLoop.End()) {
+				return // declared inside the loop
+			}
+			if _, isVar := o.(*types.Var); !isVar {
+				return
+			}
+			if n := derefNamed(o.Type()); n != nil && n.Obj().Name() == "NotationLike" {
+				notation = o
+			} else {
+				kindVars[o] = true
+			}
+		}
+		ast.Inspect(argLoop, func(y ast.Node) bool {
+			switch z := y.(type) {
+			case *ast.AssignStmt:
+				if z.Tok == token.ASSIGN {
+					for _, l := range z.Lhs {
+						if id, ok := ast.Unparen(l).(*ast.Ident); ok {
+							note(info.Uses[id])
 						}
 					}
 				}
-				return true
-			})
-		}
-		return true
-	})
-	// the final tagless switch at the top level of the function
-	var final *ast.SwitchStmt
-	for _, s := range fd.Body.List {
-		if sw, ok := s.(*ast.SwitchStmt); ok && sw.Tag == nil {
-			final = sw
+			case *ast.CallExpr:
+				for _, a := range z.Args {
+					if u, ok := ast.Unparen(a).(*ast.UnaryExpr); ok && u.Op == token.AND {
+						if id, ok := ast.Unparen(u.X).(*ast.Ident); ok {
+							note(info.Uses[id])
+						}
+					}
+				}
+			}
+			return true
+		})
+		// counters and flags of the loop itself are not argument kinds
+		for o := range kindVars {
+			if bt, ok := o.Type().Underlying().(*types.Basic); ok && bt.Info()&(types.IsInteger|types.IsBoolean) != 0 && bt.Info()&types.IsUnsigned == 0 {
+				delete(kindVars, o)
+			}
 		}
 	}
-	construct := c.fdName(fd)
-	if final == nil || len(kindVars) == 0 {
-		r.skip("D5-dispatch-skeleton", construct, c.pos(fd.Pos()), "the constructor is not `type switch over the arguments; tagless switch over the kinds found`: the skeleton rules are bound to that design")
+	// the tagless switches after the argument loop whose guards test the kinds found
+	var finals []*ast.SwitchStmt
+	if argLoop != nil {
+		inspectNoLit(fd.Body, func(x ast.Node) bool {
+			if sw, ok := x.(*ast.SwitchStmt); ok && sw.Tag == nil && sw.Pos() > argLoop.End() {
+				tests := false
+				for _, cl := range sw.Body.List {
+					for _, g := range cl.(*ast.CaseClause).List {
+						if nodeHas(g, func(y ast.Node) bool { id, ok := y.(*ast.Ident); return ok && kindVars[info.Uses[id]] }) {
+							tests = true
+						}
+					}
+				}
+				if tests {
+					finals = append(finals, sw)
+				}
+			}
+			return true
+		})
+	}
+	if len(finals) == 0 || len(kindVars) == 0 {
+		r.skip("D5-dispatch-skeleton", construct, c.pos(fd.Pos()), "the constructor is not `loop over the arguments that sorts them into kinds; tagless switch over the kinds found`: the skeleton rules are bound to that design")
 		r.skip("D3-source-branch", construct, c.pos(fd.Pos()), "no dispatch skeleton to find the source arm in")
 		return
 	}
 	// the class variable:  class := col.X[...](notation)
 	var classObj types.Object
-	okNotation := false
+	var classCall *ast.CallExpr
 	ast.Inspect(fd.Body, func(x ast.Node) bool {
 		if lhs, rhs, ok := multiDef(x); ok && len(lhs) == 1 {
 			if call, ok := ast.Unparen(rhs).(*ast.CallExpr); ok {
 				if cf := calleeOf(info, call); cf != nil && c.roleOf(cf.Pkg()) == "collection" && cf.Name() == kind {
-					classObj = identObj(info, lhs[0])
-					if len(call.Args) == 1 && notation != nil && isObj(info, call.Args[0], notation) {
-						okNotation = true
-					}
+					classObj, classCall = identObj(info, lhs[0]), call
 				}
 			}
 		}
 		return true
 	})
 	var viol []string
-	if classObj == nil {
-		viol = append(viol, "the class is not obtained through collection."+kind)
-	} else if !okNotation {
+	switch {
+	case classObj == nil:
+		r.skip("D5-dispatch-skeleton", construct, c.pos(fd.Pos()), "the class is not bound to a local through collection."+kind)
+		r.skip("D3-source-branch", construct, c.pos(fd.Pos()), "no class variable")
+		return
+	case notation != nil && !(len(classCall.Args) == 1 && isObj(info, classCall.Args[0], notation)):
 		viol = append(viol, "the notation argument does not reach the class accessor")
 	}
-	// result variable
+	mentionsKinds := func(nodes []ast.Stmt) map[types.Object]bool {
+		got := map[types.Object]bool{}
+		for _, s := range nodes {
+			ast.Inspect(s, func(z ast.Node) bool {
+				if id, ok := z.(*ast.Ident); ok && kindVars[info.Uses[id]] {
+					got[info.Uses[id]] = true
+				}
+				return true
+			})
+		}
+		return got
+	}
+	var sourceArm *ast.CaseClause
+	for _, final := range finals {
+		var defaultArm *ast.CaseClause
+		for _, cl := range final.Body.List {
+			cc := cl.(*ast.CaseClause)
+			if cc.List == nil {
+				defaultArm = cc
+				continue
+			}
+			var guardVars []types.Object
+			ast.Inspect(cc.List[0], func(y ast.Node) bool {
+				if id, ok := y.(*ast.Ident); ok && kindVars[info.Uses[id]] {
+					guardVars = append(guardVars, info.Uses[id])
+				}
+				return true
+			})
+			if len(guardVars) == 1 && isStringType(guardVars[0].Type()) {
+				if sourceArm == nil {
+					sourceArm = cc
+				}
+				continue
+			}
+			if len(guardVars) == 0 {
+				continue
+			}
+			// the arm works with the kind it tests, not with another one
+			got := mentionsKinds(cc.Body)
+			uses := false
+			for _, gv := range guardVars {
+				if got[gv] {
+					uses = true
+				}
+			}
+			if !uses && len(got) > 0 {
+				var others []string
+				for o := range got {
+					others = append(others, o.Name())
+				}
+				sort.Strings(others)
+				viol = append(viol, fmt.Sprintf("the arm guarded by `%s` does not use the variable it tests but %s: the argument tested is dropped and another one is built from", exprStr(cc.List[0]), strings.Join(others, ", ")))
+			}
+		}
+		// emptiness guards: when an arm excludes the empty value, what remains must not be a failure
+		defaultFails := false
+		if defaultArm != nil {
+			for _, s := range defaultArm.Body {
+				ast.Inspect(s, func(y ast.Node) bool {
+					if call, ok := y.(*ast.CallExpr); ok && noReturnCall(info, call) {
+						defaultFails = true
+					}
+					return true
+				})
+			}
+		}
+		for _, cl := range final.Body.List {
+			cc := cl.(*ast.CaseClause)
+			if cc.List == nil {
+				continue
+			}
+			be, ok := ast.Unparen(cc.List[0]).(*ast.BinaryExpr)
+			if !ok {
+				continue
+			}
+			call, ok := ast.Unparen(be.X).(*ast.CallExpr)
+			if !ok || !isBuiltinCall(info, call, "len") || len(call.Args) != 1 {
+				continue
+			}
+			o := identObj(info, call.Args[0])
+			if o == nil || !kindVars[o] {
+				continue
+			}
+			cst := ""
+			if tv := info.Types[be.Y]; tv.Value != nil {
+				cst = tv.Value.String()
+			}
+			nonEmpty := (be.Op == token.GTR && cst == "0") || (be.Op == token.GEQ && cst == "1") || (be.Op == token.NEQ && cst == "0")
+			isEmpty := (be.Op == token.EQL && cst == "0") || (be.Op == token.LSS && cst == "1") || (be.Op == token.LEQ && cst == "0")
+			if !nonEmpty && !isEmpty {
+				viol = append(viol, fmt.Sprintf("the arm for %s is guarded by `%s`, which is not the test for a non-empty value: some non-empty arguments fall through to another arm", o.Name(), exprStr(be)))
+			}
+			if nonEmpty && !isStringType(o.Type()) && defaultFails {
+				viol = append(viol, fmt.Sprintf("the arm for %s excludes the empty value (%s) and the default arm fails: %s[...](empty Go value) fails although the class constructor accepts it; the guard must be %s != nil", o.Name(), exprStr(be), kind, o.Name()))
+			}
+		}
+	}
+	// the kinds are sorted out independently of one another: what one argument is turned into
+	// must not depend on which other arguments have been seen so far (their order is free)
+	ast.Inspect(argLoop, func(y ast.Node) bool {
+		as, ok := y.(*ast.AssignStmt)
+		if !ok || as.Tok != token.ASSIGN {
+			return true
+		}
+		for _, l := range as.Lhs {
+			lo := identObj(info, l)
+			if lo == nil || !(kindVars[lo] || lo == notation) {
+				continue
+			}
+			for _, rh := range as.Rhs {
+				ast.Inspect(rh, func(z ast.Node) bool {
+					if id, ok := z.(*ast.Ident); ok {
+						if o := info.Uses[id]; o != nil && o != lo && (kindVars[o] || (notation != nil && o == notation)) {
+							viol = append(viol, fmt.Sprintf("inside the loop over the arguments %s is computed from %s, which holds whatever argument happened to come earlier: %s(a, b) and %s(b, a) build different collections", lo.Name(), o.Name(), kind, kind))
+						}
+					}
+					return true
+				})
+			}
+		}
+		return true
+	})
+	// a collection built from one argument is not thrown away for one built without it
+	{
+		g := newFG(info, fd.Body)
+		type asg struct {
+			st   *ast.AssignStmt
+			obj  types.Object
+			uses map[types.Object]bool
+			ctor bool
+		}
+		var asgs []asg
+		inspectNoLit(fd.Body, func(y ast.Node) bool {
+			as, ok := y.(*ast.AssignStmt)
+			if !ok || len(as.Lhs) != 1 || len(as.Rhs) != 1 || as.Pos() < argLoop.End() {
+				return true
+			}
+			o := identObj(info, as.Lhs[0])
+			if o == nil || kindVars[o] || !isCollectionLike(o.Type()) {
+				return true
+			}
+			rx, _, _, isM := methodCall(ast.Unparen(as.Rhs[0]))
+			asgs = append(asgs, asg{as, o, mentionsKinds([]ast.Stmt{&ast.ExprStmt{X: as.Rhs[0]}}), isM && isObj(info, rx, classObj)})
+			return true
+		})
+		for _, a := range asgs {
+			for _, b := range asgs {
+				if a.st == b.st || a.obj != b.obj || !a.ctor || !b.ctor || len(a.uses) == 0 {
+					continue
+				}
+				dropped := ""
+				for k := range a.uses {
+					if !b.uses[k] {
+						dropped = k.Name()
+					}
+				}
+				if dropped == "" {
+					continue
+				}
+				pt, ok := g.after(a.st)
+				if !ok {
+					continue
+				}
+				reach, _ := g.exists(pathQuery{from: pt,
+					goalNode: func(n ast.Node) bool { return n == ast.Node(b.st) },
+					stop: func(n ast.Node) bool {
+						return n != ast.Node(b.st) && nodeHas(n, func(z ast.Node) bool { id, ok := z.(*ast.Ident); return ok && info.Uses[id] == a.obj })
+					}})
+				if reach {
+					viol = append(viol, fmt.Sprintf("the collection built from %s at %s is replaced, unused, by one built without it at %s: the %s argument is dropped", dropped, c.pos(a.st.Pos()), c.pos(b.st.Pos()), dropped))
+				}
+			}
+		}
+	}
+	// an argument kind that is sorted out of the arguments but never looked at afterwards is ignored
+	after := map[types.Object]bool{}
+	for _, st := range fd.Body.List {
+		if st.Pos() > argLoop.End() {
+			for o := range mentionsKinds([]ast.Stmt{st}) {
+				after[o] = true
+			}
+		}
+	}
+	var ignored []string
+	for kv := range kindVars {
+		if !after[kv] {
+			ignored = append(ignored, kv.Name())
+		}
+	}
+	sort.Strings(ignored)
+	if len(ignored) > 0 {
+		viol = append(viol, "argument kinds that are recognised but never used to build the collection: "+strings.Join(ignored, ", "))
+	}
+	r.check(len(viol) == 0, "D5-dispatch-skeleton", construct, c.pos(fd.Pos()), fmt.Sprintf("%d argument kinds, each used by the arm that tests it; an empty Go value does not fall into a failing default; notation reaches the class", len(kindVars)), strings.Join(dedup(viol), " | "))
+
+	// ---- D3 source branch
 	var resultObj types.Object
 	inspectNoLit(fd.Body, func(x ast.Node) bool {
 		if rs, ok := x.(*ast.ReturnStmt); ok && len(rs.Results) == 1 {
@@ -222,109 +473,6 @@ func checkCtorSkeleton(c *Ctx, r *Rec, info *types.Info, fd *ast.FuncDecl, kind 
 		}
 		return true
 	})
-	tested := map[types.Object]int{}
-	var defaultArm *ast.CaseClause
-	var sourceArm *ast.CaseClause
-	for _, cl := range final.Body.List {
-		cc := cl.(*ast.CaseClause)
-		if cc.List == nil {
-			defaultArm = cc
-			continue
-		}
-		var guardVars []types.Object
-		ast.Inspect(cc.List[0], func(y ast.Node) bool {
-			if id, ok := y.(*ast.Ident); ok && kindVars[info.Uses[id]] {
-				guardVars = append(guardVars, info.Uses[id])
-			}
-			return true
-		})
-		for _, gv := range guardVars {
-			tested[gv]++
-		}
-		if len(guardVars) == 1 && isStringType(guardVars[0].Type()) {
-			sourceArm = cc
-			continue
-		}
-		// the arm passes the guard variable to the class constructor
-		passes := false
-		for _, s := range cc.Body {
-			ast.Inspect(s, func(y ast.Node) bool {
-				if rx, _, call, ok := methodCall(y); ok && classObj != nil && isObj(info, rx, classObj) {
-					got := map[types.Object]bool{}
-					for _, a := range call.Args {
-						ast.Inspect(a, func(z ast.Node) bool {
-							if id, ok := z.(*ast.Ident); ok && kindVars[info.Uses[id]] {
-								got[info.Uses[id]] = true
-							}
-							return true
-						})
-					}
-					if len(got) == len(guardVars) {
-						passes = true
-						for _, gv := range guardVars {
-							if !got[gv] {
-								passes = false
-							}
-						}
-					}
-				}
-				return true
-			})
-		}
-		if !passes {
-			viol = append(viol, fmt.Sprintf("the arm guarded by `%s` does not pass the variable it tests to a class constructor", exprStr(cc.List[0])))
-		}
-	}
-	var kvs []string
-	for kv := range kindVars {
-		if tested[kv] != 1 {
-			kvs = append(kvs, fmt.Sprintf("%s (tested by %d arms)", kv.Name(), tested[kv]))
-		}
-	}
-	sort.Strings(kvs)
-	if len(kvs) > 0 {
-		viol = append(viol, "argument kinds not tested by exactly one arm of the final switch: "+strings.Join(kvs, ", "))
-	}
-	// emptiness guards vs. the default arm
-	defaultMakesEmpty := false
-	if defaultArm != nil {
-		for _, s := range defaultArm.Body {
-			ast.Inspect(s, func(y ast.Node) bool {
-				if rx, mname, call, ok := methodCall(y); ok && classObj != nil && isObj(info, rx, classObj) && mname == "Make" && len(call.Args) == 0 {
-					defaultMakesEmpty = true
-				}
-				return true
-			})
-		}
-	}
-	for _, cl := range final.Body.List {
-		cc := cl.(*ast.CaseClause)
-		if cc.List == nil {
-			continue
-		}
-		be, ok := ast.Unparen(cc.List[0]).(*ast.BinaryExpr)
-		if !ok {
-			continue
-		}
-		if call, ok := ast.Unparen(be.X).(*ast.CallExpr); ok && isBuiltinCall(info, call, "len") {
-			cst := ""
-			if tv := info.Types[be.Y]; tv.Value != nil {
-				cst = tv.Value.String()
-			}
-			nonEmpty := (be.Op == token.GTR && cst == "0") || (be.Op == token.GEQ && cst == "1") || (be.Op == token.NEQ && cst == "0")
-			if o := identObj(info, call.Args[0]); o != nil && kindVars[o] && !nonEmpty {
-				viol = append(viol, fmt.Sprintf("the arm for %s is guarded by `%s`, which is not the test for a non-empty value: some non-empty arguments fall through to another arm", o.Name(), exprStr(be)))
-			}
-		}
-		if call, ok := ast.Unparen(be.X).(*ast.CallExpr); ok && isBuiltinCall(info, call, "len") && be.Op == token.GTR {
-			if o := identObj(info, call.Args[0]); o != nil && kindVars[o] && !isStringType(o.Type()) && !defaultMakesEmpty {
-				viol = append(viol, fmt.Sprintf("the arm for %s excludes the empty value (len(%s) > 0) but the default arm does not build the empty collection: %s[...](empty Go value) fails although the class constructor accepts it; the guard must be %s != nil", o.Name(), o.Name(), kind, o.Name()))
-			}
-		}
-	}
-	r.check(len(viol) == 0, "D5-dispatch-skeleton", construct, c.pos(fd.Pos()), fmt.Sprintf("%d argument kinds, each tested by one arm that passes it on; notation reaches the class", len(kindVars)), strings.Join(dedup(viol), " | "))
-
-	// ---- D3 source branch
 	if sourceArm == nil {
 		r.skip("D3-source-branch", construct, c.pos(fd.Pos()), "no arm guarded by the CDCN source string")
 		return
